@@ -26,12 +26,13 @@ const (
 
 // Blk is one observed (or expected) block.
 type Blk struct {
-	Kind  string     // h | p | li | q | code | table | other
-	Level int        // heading level
-	Text  string     // visible text (tables: unused)
-	Flags string     // one byte '0'+mask per non-blank rune of Text
-	Cells [][]string // table: visible text per cell
-	CellF [][]string // table: flags per cell
+	Kind    string     // h | p | li | q | code | table | other
+	Level   int        // heading level
+	Text    string     // visible text (tables: unused)
+	Flags   string     // one byte '0'+mask per non-blank rune of Text
+	Cells   [][]string // table: visible text per cell
+	CellF   [][]string // table: flags per cell
+	HdrBold bool       // table (expected side only): the first row is bold
 }
 
 var refMD = goldmark.New(goldmark.WithExtensions(extension.GFM))
